@@ -1,6 +1,7 @@
 import Sif.Proofs.C20Mint
 import Sif.Proofs.C20Rewards
 import Sif.Proofs.C20RewardsEdits
+import Sif.Proofs.C20RewardsR
 import Sif.Proofs.C11Chain
 import Sif.Generated.DispConsts
 import Sif.Generated.MintCallers
@@ -437,14 +438,14 @@ theorem rewards_restart (fix : Bool) (periods : List Period) (es1 es2 : List Env
 /-- per block: whatever period is current, the block creates at most that period's bound
     (0 off distribution blocks, ⌊alloc/len⌋ in its first block, mod·⌊alloc/len⌋ later) — in
     particular a period never pays out entitlement accumulated by a period that was cut short -/
-theorem rewards_per_block_edits (ps : List Period) (steps : List Step) (h accu a : Nat) (tr : List BlockObs)
+theorem rewards_per_block_edits_partial (ps : List Period) (steps : List Step) (h accu a : Nat) (tr : List BlockObs)
     (henv : stepsEnv ps steps = true) (hcl : cleanSwitches none ps h steps = true)
     (hr : runSteps true ps h accu steps = .ok (a, tr)) : traceBlocksOK tr = true :=
   steps_blocks_ok steps none ps h accu a tr henv hcl (fun _ hq => by cases hq) hr
 
 /-- per period: what is created in the blocks in which `q` is the current period never exceeds
     `q`'s allocation, whatever was left in the accumulator by the periods before it -/
-theorem rewards_per_period_edits (q : Period) (hqa : q.alloc ≠ 0) (ps : List Period) (steps : List Step)
+theorem rewards_per_period_edits_partial (q : Period) (hqa : q.alloc ≠ 0) (ps : List Period) (steps : List Step)
     (h accu a : Nat) (tr : List BlockObs)
     (henv : stepsEnv ps steps = true) (hcl : cleanSwitches none ps h steps = true)
     (hr : runSteps true ps h accu steps = .ok (a, tr)) : sumFor q tr ≤ q.alloc := by
@@ -474,24 +475,73 @@ theorem edit_history_ok :
   decide
 
 /-- WHERE the accumulator is dropped (regenerated from x/clp/abci.go `EndBlocker`): read once;
-    dropped exactly under `height == RewardPeriodStartBlock` — at a period START, the model's
-    `accuIn` — ; stored as zero after a distribution and carried (`blockDistribution`) otherwise —
-    the model's `finish`; and nobody else writes it.  A reset moved to the period's end block, or
-    a new writer, changes the fact and fails this obligation. -/
-theorem accumulator_reset_at_period_start :
+    dropped exactly when the period covering the previous height (`RewardPeriodAt(…, height-1)`) is
+    not the current period — the model's `accuInR` (this subsumes "at a period START") —; stored
+    as zero after a distribution and carried (`blockDistribution`) otherwise — the model's
+    `finish`; the only other writer is the `AddRewardPeriod` handler (the model's `editAccu`).
+    A reset moved elsewhere, or a new writer, changes the fact and fails this obligation. -/
+theorem accumulator_reset_where :
     Sif.Generated.AccuReset.endBlockerFound = 1 ∧
     Sif.Generated.AccuReset.accuWrites =
       [ ("blockDistributionAccu :=", "keeper.GetBlockDistributionAccu(ctx)",
           ["currentPeriod != nil && !currentPeriod.RewardPeriodAllocation.IsZero()"]),
         ("blockDistributionAccu =", "sdk.ZeroUint()",
           ["currentPeriod != nil && !currentPeriod.RewardPeriodAllocation.IsZero()",
-           "uint64(ctx.BlockHeight()) == currentPeriod.RewardPeriodStartBlock"]),
+           "previousPeriod == nil || !kpr.SameRewardPeriod(previousPeriod, currentPeriod)"]),
         ("SetBlockDistributionAccu", "sdk.ZeroUint()",
           ["currentPeriod != nil && !currentPeriod.RewardPeriodAllocation.IsZero()", "isDistributionBlock"]),
         ("SetBlockDistributionAccu", "blockDistribution",
           ["currentPeriod != nil && !currentPeriod.RewardPeriodAllocation.IsZero()", "!(isDistributionBlock)"]) ] ∧
-    Sif.Generated.AccuReset.setAccuCallers = ["x/clp/abci.go:EndBlocker", "x/clp/abci.go:EndBlocker"] := by
+    Sif.Generated.AccuReset.setAccuCallers =
+      ["x/clp/abci.go:EndBlocker", "x/clp/abci.go:EndBlocker", "x/clp/keeper/msg_server.go:msgServer.AddRewardPeriod"] := by
   decide
+
+/-! ### the tree with fixes/F27.diff applied: EVERY history of edits and blocks
+
+  F27 (defect of the tree with only F10 repaired): a period that becomes current in mid-flight —
+  an overlapping period listed after the running one taking over when that one ends, or an
+  accepted edit that changes the running period's own end / allocation / mod — paid out what its
+  predecessor had accumulated.  The `_partial` theorems above need `cleanSwitches` for that reason;
+  `overlap_residual` and `edit_midflight_residual` are `decide`d witnesses.  The repaired code
+  (model `endBlockR` / `editAccu` / `runStepsR`) keeps the accumulator only for the period that
+  covered the previous height, so the clauses hold with NO hypothesis on how periods switch. -/
+
+/-- per block, every history -/
+theorem rewards_per_block_all_histories (ps : List Period) (steps : List Step) (h accu a : Nat) (tr : List BlockObs)
+    (henv : stepsEnv ps steps = true) (hh : h ≠ 0) (hinv : accuInvR ps h accu)
+    (hr : runStepsR ps h accu steps = .ok (a, tr)) : traceBlocksOK tr = true :=
+  stepsR_blocks_ok steps ps h accu a tr henv hh hinv hr
+
+/-- per period, every history: the blocks in which `q` is the current period — however often it is
+    interrupted, cut, re-added — create at most `q`'s allocation -/
+theorem rewards_per_period_all_histories (q : Period) (hqa : q.alloc ≠ 0) (ps : List Period) (steps : List Step)
+    (h accu a : Nat) (tr : List BlockObs)
+    (henv : stepsEnv ps steps = true) (hh : h ≠ 0) (hinv : accuInvR ps h accu)
+    (hr : runStepsR ps h accu steps = .ok (a, tr)) : sumFor q tr ≤ q.alloc :=
+  Nat.le_trans (stepsR_budget q hqa steps ps h accu a tr henv hh hr) (budgetR_le_alloc q hqa hinv)
+
+/-- an empty accumulator satisfies the invariant -/
+theorem accuInvR_zero (ps : List Period) (h : Nat) : accuInvR ps h 0 := fun _ _ _ _ => Nat.zero_le _
+
+/-- directed history (a): the running period A = [10..29] 20000 mod 4 is replaced in block 16,
+    between two distribution blocks, by A' = [10..29] 20 mod 4 -/
+def midSteps : List Step :=
+  [.edit [⟨10, 29, 20000, 4⟩]] ++ List.replicate 7 (.block editEnv) ++ [.edit [⟨10, 29, 20, 4⟩]] ++
+  List.replicate 16 (.block editEnv)
+
+/-- F27 on the model with only F10 repaired: block 18 creates 1003, A' allows 4 -/
+theorem edit_midflight_residual :
+    (runSteps true [] 9 0 midSteps).toOption.map (fun r => (sumFor ⟨10, 29, 20, 4⟩ r.2, traceBlocksOK r.2))
+      = some (1011, false) := by decide
+
+/-- the repaired model on the same history, and on the overlapping list of `overlap_residual` -/
+theorem f27_fixed_ok :
+    (runStepsR [] 9 0 midSteps).toOption.map (fun r => (sumFor ⟨10, 29, 20, 4⟩ r.2, traceBlocksOK r.2))
+      = some (11, true) ∧
+    (runStepsR [⟨1, 10, 1000, 4⟩, ⟨5, 20, 1600, 1⟩] 1 0 (List.replicate 12 (.block editEnv))).toOption.map
+      (fun r => traceBlocksOK r.2) = some true := by decide
+
+example : stepsEnv [] midSteps = true := by decide
 
 /-! ### F10: the pinned tree (`fix = false`) violates the per-block and per-period clauses -/
 
